@@ -140,7 +140,7 @@ ADDENDA = {
  "C10": " Added: the activation of a category is the gamma-weighted sum of the channel modules' own activations (Fusion_skip.v), and - the permutation clause at the level of one category - the fused activation depends only on the multiset of (channel activation, gamma) pairs and the fused vigilance test only on the multiset of per-channel verdicts (Fusion_perm.v; exact arithmetic). Oracles: binary rows as int64 / uint8 / float32, one-channel FusionART vs the bare module as A side of SimpleARTMAP with the channel parameters restored. Added (axiom-free, Fusion_w.v): the W attribute in both directions - setter after getter and getter after setter are identities (the setter cuts every fused weight at the module weight lengths; repaired /repo 61f72ea). Oracles: est.W = est.W on trained mixed-module models, gamma given as int / float64 / float32 / float16 arrays.",
  "C11": " Added: with channels withheld the activation IS the gamma-weighted sum of the remaining channels' own activations (Fusion_skip.v; a skipped channel contributes 0 since /repo ee23ec6), prepare/restore with skipped channels (Fusion_prep.v). Oracles: arbitrary fillers (NaN, out of range, not complement coded) in the skipped columns, step_pred with negative indices, non-dyadic gammas with all but one channel withheld (rounding), an ART1 channel withheld, channels of mixed dtypes. Added (Fusion_prep_inv.v): the other direction of 'mutually inverse' - prepare_data applied to what restore_data returns (one block per supplied channel, accepted since /repo 67c6f3c). Oracles: prepare(restore(.)) for every skip subset of 2-4 channels, raw data in int8 / int16 / uint8 / bool.",
  "C13": " Added: every base category obeys the base module's upper-vigilance bound after every whole fit call (Fuzzy, Hypersphere, Ellipsoid instances of the generic theorem in Wrap_bound.v); the map invariant after every whole fit / partial_fit call (DualVig_reach.v).",
- "C14": " Added: both winners passed a vigilance at least as large as the configured one under every mode that never lowers it (Topo_bound.v), with the pre-fix search kept as a refuted variant (C14_search_before_fix_refuted); re-labelling at a pruning round (Topo_labels.v).",
+ "C14": " Added: both winners passed a vigilance at least as large as the configured one under every mode that never lowers it (Topo_bound.v), with the pre-fix search kept as a refuted variant (C14_search_before_fix_refuted); re-labelling at a pruning round (Topo_labels.v). Added (Topo_epochs.v): fit with several epochs (max_iter > 1) - the alignment invariant after every epoch, with pruning rounds that meet survivors owning no sample; correspondence of 2-3 epoch fits (corr/RunTopoN.v) and an implementation-side oracle that judges every pruning round of 1-3 epoch fits over ART2-A / Fuzzy / Hypersphere bases against the statement.",
  "C18": " Added oracles: a wrong-width matrix at the FIRST call for the modules whose hyper-parameters fix the width (ART2A, BayesianART, GaussianART: three defects repaired), integer-dtype invalid batches. Added (Prep_whole.v): whole first calls - for any rectangular data set with non-constant columns the output lies in the unit cube, passes Fuzzy ART's validation after complement coding (double width) and is restored exactly; later data inside the remembered bounds likewise. Oracle: whole-number matrices stored as int8 / int16 / int32 / uint8 / bool (a defect repaired: normalize computed in the caller's dtype).",
  "C19": " The protocol model now states validate-then-assign (a rejected set_params changes nothing: C19_rejected_call_changes_nothing; the old behaviour is kept as set_params_before_fix_refuted). Oracles: rejected calls leave all params and attributes unchanged, module-valued entries in the set_params(get_params) round trip, doubly nested names. Oracles: a sub-estimator replaced together with one of its parameters, rejected calls that also replace a module (two defects repaired). Added (axiom-free, Params_nested.v): set_params with sub-estimators - own parameters, module replacement and nested values in one call: an unknown name or an invalid own value changes nothing; a module replaced together with one of its parameters receives the value (either keyword order; before /repo 32a9a46 the value went to the module being replaced: nested_before_fix_refuted). Correspondence on DualVigilanceART and BARTMAP over Fuzzy ART (corr/RunParamsN.v), incl. the recorded partial application when a later nested group is rejected.",
 }
